@@ -155,8 +155,12 @@ def near_misses(rng, names, k):
 def _clear_caches():
     from scippneutron.atoms import Atom, ScatteringParams
 
-    Atom.for_isotope.cache_clear()
-    ScatteringParams.for_isotope.cache_clear()
+    import scippneutron.atoms as atoms_mod
+
+    for obj in (Atom.for_isotope, ScatteringParams.for_isotope, getattr(atoms_mod, '_load_scattering_params', None)):
+        clear = getattr(obj, 'cache_clear', None)
+        if clear is not None:
+            clear()
 
 
 def correspond(ctx):
